@@ -46,12 +46,12 @@ func sockConfigs(thorough bool) []config {
 		{Name: "tcp/1-sender", Kind: "tcp", Senders: 1, NS: 2, NR: 2, MaxW: 2, MaxR: 2, Cap: 100, SAbort: true, RAbort: true, Budget: b, ToMs: 25, WToMs: 2000},
 		{Name: "tcp/1-sender/blocked-read", Kind: "tcp", Senders: 1, NS: 2, NR: 2, MaxW: 2, MaxR: 2, Cap: 100, SAbort: true, RAbort: true, Blocked: true, Budget: b, ToMs: 3000, WToMs: 3000},
 		{Name: "tcp/length", Kind: "tcp", Senders: 1, NS: 2, NR: 2, MaxW: 2, MaxR: 2, Cap: 100, SAbort: false, RAbort: true, Len: true, Budget: b0, ToMs: 25, WToMs: 2000},
-		{Name: "tcp/slow-receiver", Kind: "tcp", Senders: 1, NS: 4, NR: 2, MaxW: 1, MaxR: 1, Cap: 1, SAbort: false, RAbort: true, Stall: true, Budget: b, ToMs: 25, WToMs: 150},
-		{Name: "tcp/slow-receiver-length", Kind: "tcp", Senders: 1, NS: 3, NR: 1, MaxW: 2, MaxR: 2, Cap: 1, SAbort: false, RAbort: true, Len: true, Budget: b0, ToMs: 25, WToMs: 150},
+		{Name: "tcp/slow-receiver", Kind: "tcp", Senders: 1, NS: 4, NR: 2, MaxW: 1, MaxR: 1, Cap: 1, SAbort: false, RAbort: true, Stall: true, Budget: b, ToMs: 25, WToMs: 250},
+		{Name: "tcp/slow-receiver-length", Kind: "tcp", Senders: 1, NS: 3, NR: 1, MaxW: 2, MaxR: 2, Cap: 1, SAbort: false, RAbort: true, Len: true, Budget: b0, ToMs: 25, WToMs: 250},
 		{Name: "tcp/2-senders", Kind: "tcp", Senders: 2, NS: 1, NR: 2, MaxW: 2, MaxR: 2, Cap: 100, SAbort: true, RAbort: true, Budget: b, ToMs: 25, WToMs: 2000},
 		{Name: "tcp/2-senders/blocked-read", Kind: "tcp", Senders: 2, NS: 1, NR: 2, MaxW: 2, MaxR: 2, Cap: 100, SAbort: true, RAbort: true, Blocked: true, Budget: b, ToMs: 3000, WToMs: 3000},
 		// the commit acknowledgement is sent but reaches the sender only after its timeout (byte relay, nothing dropped)
-		{Name: "tcp/late-commit-ack", Kind: "tcp", Senders: 1, NS: 2, NR: 2, MaxW: 2, MaxR: 2, Cap: 100, SAbort: true, RAbort: true, Relay: true, Budget: b, ToMs: 25, WToMs: 150},
+		{Name: "tcp/late-commit-ack", Kind: "tcp", Senders: 1, NS: 2, NR: 2, MaxW: 2, MaxR: 2, Cap: 100, SAbort: true, RAbort: true, Relay: true, Budget: b, ToMs: 25, WToMs: 250},
 		{Name: "tcp/late-receiver", Kind: "tcp", Senders: 1, NS: 2, NR: 1, MaxW: 1, MaxR: 2, Cap: 100, SAbort: true, RAbort: true, Late: true, Budget: b, ToMs: 25, WToMs: 2000},
 		{Name: "relaxed/1-sender", Kind: "relaxed", Senders: 1, NS: 2, NR: 2, MaxW: 2, MaxR: 2, Cap: 100, RAbort: true, Budget: b, ToMs: 25, WToMs: 2000},
 		{Name: "relaxed/1-sender/blocked-read", Kind: "relaxed", Senders: 1, NS: 2, NR: 2, MaxW: 2, MaxR: 2, Cap: 100, RAbort: true, Blocked: true, Budget: b, ToMs: 3000, WToMs: 3000},
@@ -220,7 +220,7 @@ func TestCheck(t *testing.T) {
 
 		// Go-channel kinds run in bubbles (microseconds each, CPU bound), socket kinds in real time (they mostly wait for
 		// timeouts and acknowledgements): the two lists are worked through side by side.  Within a list every configuration
-		// may use twice its fair share of the time that is left, so that one large tree cannot starve those after it.
+		// may use four times its fair share of the time that is left, so that one large tree cannot starve those after it.
 		end := env.Deadline.Add(-15 * time.Second)
 		var addMu sync.Mutex
 		runList := func(all []config, sock bool) {
@@ -229,7 +229,7 @@ func TestCheck(t *testing.T) {
 				if f := os.Getenv("C06_ONLY"); f != "" && !strings.Contains(cfg.Name, f) {
 					continue
 				}
-				dl := time.Now().Add(2 * time.Until(end) / time.Duration(len(all)-i))
+				dl := time.Now().Add(4 * time.Until(end) / time.Duration(len(all)-i))
 				if dl.After(end) {
 					dl = end
 				}
@@ -252,10 +252,21 @@ func TestCheck(t *testing.T) {
 				addMu.Unlock()
 			}
 		}
+		// socket configurations whose executions contain long real-time waits (write timeouts of a stopped receiver, held
+		// acknowledgements, bulk transfers) form a third list
+		var fast, slow []config
+		for _, cfg := range sockConfigs(env.Thorough()) {
+			if cfg.Bulk > 0 || cfg.Relay || cfg.WToMs < 1000 {
+				slow = append(slow, cfg)
+			} else {
+				fast = append(fast, cfg)
+			}
+		}
 		var wg sync.WaitGroup
-		wg.Add(2)
+		wg.Add(3)
 		go func() { defer wg.Done(); runList(bubbleConfigs(env.Thorough()), false) }()
-		go func() { defer wg.Done(); runList(sockConfigs(env.Thorough()), true) }()
+		go func() { defer wg.Done(); runList(fast, true) }()
+		go func() { defer wg.Done(); runList(slow, true) }()
 		wg.Wait()
 
 		keys := make([]string, 0, len(viol))
